@@ -103,6 +103,15 @@ def exists_before_create(ct, rep, rule="exists-before-create"):
                         rep.ok(rule, f"{fq}: `{how}` on `{p}` is reached only after `{p}.exists()` was false; when it exists FileExistsError is raised", nontrivial=True)
                 seen.add(key)
         if not found:
+            # definite when nothing the function calls could create a file: only path construction / existence tests /
+            # exception and Tdf constructors are left
+            harmless = {"Path", "pathlib.Path", "str", "Tdf", ct.tdf.name, "FileExistsError", "FileNotFoundError", "ValueError", "TypeError", "OSError", "IOError", "isinstance", "type"}
+            other = [c for c in ast.walk(f.node) if isinstance(c, ast.Call) and norm(c.func) not in harmless
+                     and not (isinstance(c.func, ast.Attribute) and c.func.attr in ("exists", "is_file", "is_dir", "resolve", "absolute", "expanduser", "with_suffix", "with_name", "joinpath"))]
+            if not other:
+                rep.fail(rule, ct.mod.path.name, fq, f.node, f"{fq} creates no file at all: the path it returns / opens does not exist afterwards" + (" (no byte-identical copy is made)" if name == "copy" else ""),
+                         construct=f"{fq} creates nothing")
+                continue
             raise AnalysisError(f"{fq}: no file-creating call found (anchor vanished)")
         n += len(seen)
     rep.floor(rule, n, 2)
